@@ -14,7 +14,7 @@ int m_set_memhook(void *(*)(size_t), void *(*)(size_t, size_t), void (*)(void *)
 static const profile_t PROFILES[] = {
     /* prop   nmods groups                                                                     rules                               maxdev prelude evals refuse flagset acts armcbs pats topics */
     { "C01", 2, G_LIFE | G_REG | G_MSG | G_PILL | G_ARM | G_ILLEGAL | G_QUIT,               RL_BASE | R_EV | R_PILL,            1, "01000100", 7, 1, 1,
-      (1u << A_STOP) | (1u << A_DEREG) | (1u << A_PAUSE) | (1u << A_QUIT) | (1u << A_TELL), 0xf, 0, 0 },
+      (1u << A_STOP) | (1u << A_DEREG) | (1u << A_PAUSE) | (1u << A_QUIT) | (1u << A_TELL) | (1u << A_START), 0xf, 0, 0 },
     { "C02", 2, G_LIFE | G_MSG | G_SUB | G_BCAST | G_AUTOFREE | G_QUIT | G_FAULT,           RL_BASE | R_PS | R_FREE,            1, "01000100" "07000100" "07010100" "04000000", 1, 0, 1,
       0, 0, (1u << P_T) | (1u << P_RT) | (1u << P_DOT), (1u << T_T) | (1u << T_TX) | (1u << T_U) },
     { "C02O", 1, G_SUB | G_QUIT | G_AUTOFREE,                                                  RL_BASE | R_PS | R_FREE,            0, "01000100" "07000100" "07010100" "04000000", 1, 0, 1,
